@@ -598,6 +598,22 @@ def gen_case_flat(rng, tier, cond_only=False):
         sel = rng.choice([[it(0)], [it(0), ['var', 1]], [it(1), it(0)]])
         return dict(heap=heap, doms=doms, binders=[['var', 1], ['flat', 5, ft]], sel=sel, cond=cond, form='set_of' if len(sel) > 1 or rng.random() < 0.5 else 'entity',
                     list_items=rng.random() < 0.5)
+    if not cond_only and rng.random() < 0.08:
+        # the PARENT alone is selected; the condition is a disjunction of conjunctions, each joining an item of the flattened element
+        # with a condition on the parent: an element the left conjunction rejects still has to reach the right one (elements = pairs)
+        for o in heap:
+            while len(o) < 10:
+                o.append([])
+            o[9] = [[rng.randint(0, 3), rng.randint(0, 1)] for _ in range(rng.randint(1, 3))]
+        ft = ['map', ['f', F['groups']], ['var', 1]]
+        flat = ['flat', 5, ft]
+        it = lambda j: ['map', ['i', j], flat]
+        par = lambda: ['cmp', rng.choice(['==', '!=', '>=']), ['map', ['f', F[rng.choice('ab')]], ['var', 1]], ['lit', rng.choice(INT_ALPHA)]]
+        el = lambda: ['cmp', rng.choice(['>=', '==', '<']), it(rng.randint(0, 1)), ['lit', rng.randint(0, 3)]]
+        conj = lambda: ['and', el(), par(), 'fn'] if rng.random() < 0.7 else ['and', par(), el(), 'fn']
+        cond = ['or', conj(), conj(), rng.choice(['fn', 'op'])]
+        return dict(heap=heap, doms=doms, binders=[['var', 1], ['flat', 5, ft]], sel=[['var', 1]], cond=cond, form=rng.choice(['entity', 'set_of']),
+                    list_items=rng.random() < 0.5)
     if cond_only or rng.random() < 0.2:
         # the flattened expression is used by the condition only (the parent alone is selected): a parent qualifies through ANY of
         # its elements, or through a condition on itself; optionally a further condition on the parent comes first
@@ -1113,6 +1129,11 @@ def gen_pair(rng, tier):
     if rng.random() < 0.12:
         # a universal condition: the order of the universal values must not matter
         orig = gen_case_forall_eq(rng) if rng.random() < 0.6 else gen_case_forall(rng, tier)
+    elif rng.random() < 0.12:
+        # literal-free joins over three variables (the operator caches are hit with partially bound keys: a disjunction over
+        # different variables followed by a condition on the variable it sometimes leaves open) - every rewrite keeps the result set
+        j = gen_case_join(rng, tier)
+        orig = dict(heap=j['heap'], doms=j['doms'], binders=j['binders'], sel=j['sel'], cond=j['cond'], form='set_of')
     if rng.random() < 0.4:
         # a conjunction joining two variables as one side of a disjunction, only ONE of the two selected, the other one needed by
         # the other side of the disjunction (rows that are false for the conjunction must be kept apart per value of the
